@@ -7,4 +7,6 @@ mkdir -p .bin evidence replays
 (cd vinstr && go build -o ../.bin/vinstr .)
 (cd /repo && go build ./... )
 ./check build
+# pre-warm the race-detector build of the free-running pass and the conformance leg
+(cd harness && go build -race -o /dev/null ./cmd/racepass && go build -o /dev/null ./cmd/conf)
 echo "setup ok"
